@@ -1,809 +1,6 @@
-//! The probe: a thin pass-through adapter from the crate under test (`tlsh`,
-//! built with the feature set of one configuration) to the object-safe API of
-//! `vcheck`, plus a counting global allocator.  No checking logic lives here.
-
-#![allow(unexpected_cfgs)]
-#![allow(clippy::all)]
-
-use std::alloc::{GlobalAlloc, Layout, System};
-use std::any::Any;
-use std::cell::Cell;
-use std::io::Read;
-use std::path::Path;
-
-use vcheck::api::*;
-use vcheck::noalloc::{Op, Program, Report, MAX_OPS};
-
-use tlsh::hash::body::FuzzyHashBody as _;
-use tlsh::hash::checksum::FuzzyHashChecksum as _;
-use tlsh::length::{DataLengthProcessingMode, DataLengthValidity, FuzzyHashLengthEncoding};
-use tlsh::{ComparisonConfiguration, FuzzyHashType, GeneratorError, GeneratorOptions, GeneratorType, HexStringPrefix, OperationError, ParseError};
-
-// ------------------------------------------------------------ allocator
-
-thread_local! {
-    static ALLOCS: Cell<u64> = const { Cell::new(0) };
-}
-
-struct Counting;
-
-#[inline]
-fn bump() {
-    let _ = ALLOCS.try_with(|c| c.set(c.get() + 1));
-}
-
-unsafe impl GlobalAlloc for Counting {
-    unsafe fn alloc(&self, l: Layout) -> *mut u8 {
-        bump();
-        System.alloc(l)
-    }
-    unsafe fn dealloc(&self, p: *mut u8, l: Layout) {
-        System.dealloc(p, l)
-    }
-    unsafe fn alloc_zeroed(&self, l: Layout) -> *mut u8 {
-        bump();
-        System.alloc_zeroed(l)
-    }
-    unsafe fn realloc(&self, p: *mut u8, l: Layout, n: usize) -> *mut u8 {
-        bump();
-        System.realloc(p, l, n)
-    }
-}
-
-#[global_allocator]
-static GLOBAL: Counting = Counting;
-
-fn alloc_count() -> u64 {
-    ALLOCS.try_with(|c| c.get()).unwrap_or(0)
-}
-
-// ------------------------------------------------------------ conversions
-
-fn perr(e: ParseError) -> PErr {
-    match e {
-        ParseError::LengthIsTooLarge => PErr::LengthIsTooLarge,
-        ParseError::InvalidPrefix => PErr::InvalidPrefix,
-        ParseError::InvalidCharacter => PErr::InvalidCharacter,
-        ParseError::InvalidStringLength => PErr::InvalidStringLength,
-        ParseError::InvalidChecksum => PErr::InvalidChecksum,
-        _ => PErr::Unknown,
-    }
-}
-
-fn gerr(e: GeneratorError) -> GErr {
-    match e {
-        GeneratorError::TooLargeInput => GErr::TooLarge,
-        GeneratorError::TooSmallInput => GErr::TooSmall,
-        GeneratorError::BucketsAreHalfEmpty => GErr::HalfEmpty,
-        GeneratorError::BucketsAreThreeQuarterEmpty => GErr::ThreeQuarterEmpty,
-        _ => GErr::Unknown,
-    }
-}
-
-fn oerr(e: OperationError) -> OErr {
-    match e {
-        OperationError::BufferIsTooSmall => OErr::BufferIsTooSmall,
-        _ => OErr::Unknown,
-    }
-}
-
-fn prefix(p: Prefix) -> HexStringPrefix {
-    match p {
-        Prefix::Empty => HexStringPrefix::Empty,
-        Prefix::WithVersion => HexStringPrefix::WithVersion,
-    }
-}
-
-fn config(no_length: bool) -> ComparisonConfiguration {
-    if no_length {
-        ComparisonConfiguration::NoLength
-    } else {
-        ComparisonConfiguration::Default
-    }
-}
-
-fn mk_opts(o: Opts) -> GeneratorOptions {
-    let mut g = GeneratorOptions::new();
-    g.length_processing_mode(if o.conservative { DataLengthProcessingMode::Conservative } else { DataLengthProcessingMode::Optimistic })
-        .pure_integer_qratio_computation(o.pure_integer)
-        .allow_small_size_files(o.allow_small)
-        .allow_statistically_weak_buckets_half(o.allow_half)
-        .allow_statistically_weak_buckets_quarter(o.allow_quarter);
-    g
-}
-
-fn validity(v: DataLengthValidity) -> Validity {
-    match v {
-        DataLengthValidity::TooSmall => Validity::TooSmall,
-        DataLengthValidity::ValidWhenOptimistic => Validity::ValidWhenOptimistic,
-        DataLengthValidity::Valid => Validity::Valid,
-        DataLengthValidity::TooLarge => Validity::TooLarge,
-    }
-}
-
-fn validity_back(v: Validity) -> DataLengthValidity {
-    match v {
-        Validity::TooSmall => DataLengthValidity::TooSmall,
-        Validity::ValidWhenOptimistic => DataLengthValidity::ValidWhenOptimistic,
-        Validity::Valid => DataLengthValidity::Valid,
-        Validity::TooLarge => DataLengthValidity::TooLarge,
-    }
-}
-
-#[cfg(all(feature = "t-easy-functions", feature = "t-std"))]
-fn stream_err(e: tlsh::GeneratorOrIOError) -> StreamErr {
-    match e {
-        tlsh::GeneratorOrIOError::GeneratorError(g) => StreamErr::Gen(gerr(g)),
-        tlsh::GeneratorOrIOError::IOError(i) => StreamErr::Io(i),
-    }
-}
-
-#[cfg(feature = "t-easy-functions")]
-fn side_err(e: tlsh::ParseErrorEither) -> (Side, PErr) {
-    (
-        match e.side() {
-            tlsh::ParseErrorSide::Left => Side::Left,
-            tlsh::ParseErrorSide::Right => Side::Right,
-        },
-        perr(e.inner_err()),
-    )
-}
-
-#[cfg(fast_tlsh_verif)]
-fn dist_backend(b: DistBackend) -> tlsh::verif_hooks::VerifDistanceBackend {
-    use tlsh::verif_hooks::VerifDistanceBackend as B;
-    match b {
-        DistBackend::Dispatch => B::Dispatch,
-        DistBackend::Pseudo32 => B::Pseudo32,
-        DistBackend::Pseudo64 => B::Pseudo64,
-        DistBackend::Sse2 => B::Sse2,
-        DistBackend::Sse41 => B::Sse41,
-        DistBackend::Avx2 => B::Avx2,
-    }
-}
-
-#[cfg(fast_tlsh_verif)]
-fn agg_backend(b: AggBackend) -> tlsh::verif_hooks::VerifAggregationBackend {
-    use tlsh::verif_hooks::VerifAggregationBackend as B;
-    match b {
-        AggBackend::Dispatch => B::Dispatch,
-        AggBackend::Naive => B::Naive,
-        AggBackend::Sse2 => B::Sse2,
-        AggBackend::Ssse3 => B::Ssse3,
-        AggBackend::Avx2 => B::Avx2,
-    }
-}
-
-// ------------------------------------------------------------ per-variant adapter
-
-macro_rules! variant {
-    ($m:ident, $ty:ty, $model:expr, $n:literal, $body:literal, $ck:literal, $buckets:literal, $dist_by:ident, $agg_by:ident, $map:ident) => {
-        mod $m {
-            use super::*;
-            pub type T = $ty;
-            pub type Gen = tlsh::TlshGeneratorFor<T>;
-
-            #[derive(Clone)]
-            pub struct HObj(pub T);
-            pub struct GObj(pub Gen);
-            pub struct VApi;
-
-            fn down(o: &dyn HashObj) -> &T {
-                &o.as_any().downcast_ref::<HObj>().expect("same variant").0
-            }
-            fn bx(t: T) -> H {
-                Box::new(HObj(t))
-            }
-
-            impl HashObj for HObj {
-                fn store_bytes(&self, out: &mut [u8]) -> Result<usize, OErr> {
-                    self.0.store_into_bytes(out).map_err(oerr)
-                }
-                fn store_str(&self, out: &mut [u8], p: Prefix) -> Result<usize, OErr> {
-                    self.0.store_into_str_bytes(out, prefix(p)).map_err(oerr)
-                }
-                fn display(&self) -> String {
-                    format!("{}", self.0)
-                }
-                fn to_string_(&self) -> String {
-                    self.0.to_string()
-                }
-                fn checksum(&self) -> Vec<u8> {
-                    self.0.checksum().data().to_vec()
-                }
-                fn checksum_valid(&self) -> bool {
-                    self.0.checksum().is_valid()
-                }
-                fn lvalue(&self) -> u8 {
-                    self.0.length().value()
-                }
-                fn length_valid(&self) -> bool {
-                    self.0.length().is_valid()
-                }
-                fn qvalue(&self) -> u8 {
-                    self.0.qratios().value()
-                }
-                fn q1(&self) -> u8 {
-                    self.0.qratios().q1ratio()
-                }
-                fn q2(&self) -> u8 {
-                    self.0.qratios().q2ratio()
-                }
-                fn body(&self) -> Vec<u8> {
-                    self.0.body().data().to_vec()
-                }
-                fn quartile(&self, i: usize) -> u8 {
-                    self.0.body().quartile(i)
-                }
-                fn compare(&self, o: &dyn HashObj, no_length: bool) -> u32 {
-                    self.0.compare_with_config(down(o), config(no_length))
-                }
-                fn compare_default(&self, o: &dyn HashObj) -> u32 {
-                    self.0.compare(down(o))
-                }
-                fn compare_parts(&self, o: &dyn HashObj) -> [u32; 4] {
-                    let o = down(o);
-                    [
-                        self.0.body().compare(o.body()),
-                        self.0.checksum().compare(o.checksum()),
-                        self.0.qratios().compare(o.qratios()),
-                        self.0.length().compare(o.length()),
-                    ]
-                }
-                fn equals(&self, o: &dyn HashObj) -> bool {
-                    self.0 == *down(o)
-                }
-                fn clear_checksum(&mut self) {
-                    self.0.clear_checksum()
-                }
-                fn boxed_clone(&self) -> H {
-                    Box::new(self.clone())
-                }
-                fn as_any(&self) -> &dyn Any {
-                    self
-                }
-                fn debug(&self) -> String {
-                    format!("{:?}", self.0)
-                }
-            }
-
-            impl GenObj for GObj {
-                fn update(&mut self, d: &[u8]) {
-                    self.0.update(d)
-                }
-                fn finalize(&self, o: Opts) -> Result<H, GErr> {
-                    self.0.finalize_with_options(&mk_opts(o)).map(bx).map_err(gerr)
-                }
-                fn finalize_default(&self) -> Result<H, GErr> {
-                    self.0.finalize().map(bx).map_err(gerr)
-                }
-                fn processed_len(&self) -> Option<u32> {
-                    self.0.processed_len()
-                }
-                fn boxed_clone(&self) -> G {
-                    Box::new(GObj(self.0.clone()))
-                }
-                fn state(&self) -> Option<GenState> {
-                    #[cfg(fast_tlsh_verif)]
-                    {
-                        use tlsh::verif_hooks::VerifGeneratorHook;
-                        let s = self.0.verif_state();
-                        return Some(GenState {
-                            buckets: s.buckets[..s.num_physical].to_vec(),
-                            len: s.len,
-                            tail: s.tail,
-                            tail_len: s.tail_len,
-                            checksum: s.checksum[..s.checksum_len].to_vec(),
-                        });
-                    }
-                    #[allow(unreachable_code)]
-                    None
-                }
-            }
-
-            impl VariantApi for VApi {
-                fn v(&self) -> Variant {
-                    $model
-                }
-                fn consts(&self) -> Consts {
-                    Consts {
-                        number_of_buckets: T::NUMBER_OF_BUCKETS,
-                        size_in_bytes: T::SIZE_IN_BYTES,
-                        len_in_str_except_prefix: T::LEN_IN_STR_EXCEPT_PREFIX,
-                        len_in_str: T::LEN_IN_STR,
-                        gen_min: Gen::MIN,
-                        gen_min_conservative: Gen::MIN_CONSERVATIVE,
-                        gen_max: Gen::MAX,
-                        checksum_size: <T as FuzzyHashType>::ChecksumType::SIZE,
-                        checksum_max_distance: <T as FuzzyHashType>::ChecksumType::MAX_DISTANCE,
-                        body_size: <T as FuzzyHashType>::BodyType::SIZE,
-                        body_num_buckets: <T as FuzzyHashType>::BodyType::NUM_BUCKETS,
-                        body_max_distance: <T as FuzzyHashType>::BodyType::MAX_DISTANCE,
-                        is_checksum_effective: Gen::IS_CHECKSUM_EFFECTIVE,
-                    }
-                }
-                fn max_distance(&self, no_length: bool) -> u32 {
-                    T::max_distance(config(no_length))
-                }
-                fn from_str_bytes(&self, s: &[u8], p: Option<Prefix>) -> Result<H, PErr> {
-                    T::from_str_bytes(s, p.map(prefix)).map(bx).map_err(perr)
-                }
-                fn from_str_with(&self, s: &str, p: Option<Prefix>) -> Result<H, PErr> {
-                    T::from_str_with(s, p.map(prefix)).map(bx).map_err(perr)
-                }
-                fn from_str(&self, s: &str) -> Result<H, PErr> {
-                    <T as core::str::FromStr>::from_str(s).map(bx).map_err(perr)
-                }
-                fn try_from_slice(&self, b: &[u8]) -> Result<H, PErr> {
-                    T::try_from(b).map(bx).map_err(perr)
-                }
-                fn try_from_array(&self, b: &[u8]) -> Result<H, PErr> {
-                    let a: &[u8; $n] = b.try_into().expect("probe: try_from_array needs exactly N bytes");
-                    T::try_from(a).map(bx).map_err(perr)
-                }
-                fn generator(&self) -> G {
-                    Box::new(GObj(Gen::new()))
-                }
-                fn validity(&self, n: u32) -> Validity {
-                    validity(DataLengthValidity::new::<$buckets>(n))
-                }
-                fn hash_buf(&self, _d: &[u8]) -> Option<Result<H, GErr>> {
-                    #[cfg(feature = "t-easy-functions")]
-                    return Some(tlsh::hash_buf_for::<T>(_d).map(bx).map_err(gerr));
-                    #[allow(unreachable_code)]
-                    None
-                }
-                fn hash_stream(&self, _r: &mut dyn Read) -> Option<Result<H, StreamErr>> {
-                    #[cfg(all(feature = "t-easy-functions", feature = "t-std"))]
-                    {
-                        let mut r = _r;
-                        return Some(tlsh::hash_stream_for::<T, _>(&mut r).map(bx).map_err(stream_err));
-                    }
-                    #[allow(unreachable_code)]
-                    None
-                }
-                fn hash_file(&self, _p: &Path) -> Option<Result<H, StreamErr>> {
-                    #[cfg(all(feature = "t-easy-functions", feature = "t-std"))]
-                    return Some(tlsh::hash_file_for::<T, _>(_p).map(bx).map_err(stream_err));
-                    #[allow(unreachable_code)]
-                    None
-                }
-                fn compare_with(&self, _l: &str, _r: &str) -> Option<Result<u32, (Side, PErr)>> {
-                    #[cfg(feature = "t-easy-functions")]
-                    return Some(tlsh::compare_with::<T>(_l, _r).map_err(side_err));
-                    #[allow(unreachable_code)]
-                    None
-                }
-                fn gen_from_state(&self, _st: &GenState) -> Option<G> {
-                    #[cfg(fast_tlsh_verif)]
-                    {
-                        use tlsh::verif_hooks::VerifGeneratorHook;
-                        let g = Gen::verif_from_state(&_st.buckets, _st.len, _st.tail, _st.tail_len, &_st.checksum);
-                        return Some(Box::new(GObj(g)));
-                    }
-                    #[allow(unreachable_code)]
-                    None
-                }
-                fn b_mapping(&self, _b0: u8, _b1: u8, _b2: u8, _b3: u8) -> Option<u8> {
-                    #[cfg(fast_tlsh_verif)]
-                    return Some(tlsh::verif_hooks::$map(_b0, _b1, _b2, _b3));
-                    #[allow(unreachable_code)]
-                    None
-                }
-                fn b_mapping_sweep(&self, _b0: u8, _out: &mut [u8]) -> bool {
-                    #[cfg(fast_tlsh_verif)]
-                    {
-                        assert_eq!(_out.len(), 1 << 24);
-                        for b1 in 0..=255u8 {
-                            for b2 in 0..=255u8 {
-                                let base = ((b1 as usize) << 16) | ((b2 as usize) << 8);
-                                for b3 in 0..=255u8 {
-                                    _out[base | b3 as usize] = tlsh::verif_hooks::$map(_b0, b1, b2, b3);
-                                }
-                            }
-                        }
-                        return true;
-                    }
-                    #[allow(unreachable_code)]
-                    false
-                }
-                fn body_distance_by(&self, _backend: DistBackend, _a: &[u8], _b: &[u8]) -> Option<u32> {
-                    #[cfg(fast_tlsh_verif)]
-                    {
-                        let a: &[u8; $body] = _a.try_into().expect("body size");
-                        let b: &[u8; $body] = _b.try_into().expect("body size");
-                        return tlsh::verif_hooks::$dist_by(dist_backend(_backend), a, b);
-                    }
-                    #[allow(unreachable_code)]
-                    None
-                }
-                fn aggregate_by(&self, _backend: AggBackend, _buckets: &[u32], _q1: u32, _q2: u32, _q3: u32) -> Option<Vec<u8>> {
-                    #[cfg(fast_tlsh_verif)]
-                    {
-                        let b: &[u32; $buckets] = _buckets[..$buckets].try_into().expect("bucket count");
-                        let mut out = [0u8; $body];
-                        if tlsh::verif_hooks::$agg_by(agg_backend(_backend), &mut out, b, _q1, _q2, _q3) {
-                            return Some(out.to_vec());
-                        }
-                        return None;
-                    }
-                    #[allow(unreachable_code)]
-                    None
-                }
-                fn to_json(&self, _h: &dyn HashObj) -> Option<Result<String, String>> {
-                    #[cfg(feature = "t-serde")]
-                    return Some(serde_json::to_string(down(_h)).map_err(|e| e.to_string()));
-                    #[allow(unreachable_code)]
-                    None
-                }
-                fn from_json(&self, _s: &[u8]) -> Option<Result<H, String>> {
-                    #[cfg(feature = "t-serde")]
-                    return Some(serde_json::from_slice::<T>(_s).map(bx).map_err(|e| e.to_string()));
-                    #[allow(unreachable_code)]
-                    None
-                }
-                fn to_cbor(&self, _h: &dyn HashObj) -> Option<Result<Vec<u8>, String>> {
-                    #[cfg(feature = "t-serde")]
-                    {
-                        let mut out = Vec::new();
-                        return Some(ciborium::into_writer(down(_h), &mut out).map(|_| out).map_err(|e| e.to_string()));
-                    }
-                    #[allow(unreachable_code)]
-                    None
-                }
-                fn from_cbor(&self, _s: &[u8]) -> Option<Result<H, String>> {
-                    #[cfg(feature = "t-serde")]
-                    return Some(ciborium::from_reader::<T, _>(_s).map(bx).map_err(|e| e.to_string()));
-                    #[allow(unreachable_code)]
-                    None
-                }
-                fn to_postcard(&self, _h: &dyn HashObj) -> Option<Result<Vec<u8>, String>> {
-                    #[cfg(feature = "t-serde")]
-                    return Some(postcard::to_allocvec(down(_h)).map_err(|e| e.to_string()));
-                    #[allow(unreachable_code)]
-                    None
-                }
-                fn from_postcard(&self, _s: &[u8]) -> Option<Result<H, String>> {
-                    #[cfg(feature = "t-serde")]
-                    return Some(postcard::from_bytes::<T>(_s).map(bx).map_err(|e| e.to_string()));
-                    #[allow(unreachable_code)]
-                    None
-                }
-                fn mock_ser(&self, _h: &dyn HashObj, _human: bool) -> Option<SerRecord> {
-                    #[cfg(feature = "t-serde")]
-                    {
-                        use serde::Serialize;
-                        let s = vcheck::mockserde::MockSerializer { human: _human };
-                        return Some(match down(_h).serialize(s) {
-                            Ok(r) => r,
-                            Err(e) => SerRecord::Other(format!("error: {}", e)),
-                        });
-                    }
-                    #[allow(unreachable_code)]
-                    None
-                }
-                fn mock_de(&self, _script: &vcheck::mockserde::DeScript) -> Option<Result<H, String>> {
-                    #[cfg(feature = "t-serde")]
-                    {
-                        use serde::Deserialize;
-                        let hint = Cell::new("");
-                        let d = vcheck::mockserde::MockDeserializer::new(_script, &hint);
-                        let r = T::deserialize(d).map(bx).map_err(|e| e.to_string());
-                        return Some(r.map_err(|e| format!("{} [asked {}]", e, hint.get())));
-                    }
-                    #[allow(unreachable_code)]
-                    None
-                }
-                fn noalloc_exec(&self, prog: &Program, rep: &mut Report) {
-                    let mut gen = Gen::new();
-                    let mut a: Option<T> = None;
-                    let mut b: Option<T> = None;
-                    let mut buf = [0u8; 512];
-                    let mut digest: u64 = 0;
-                    for (i, op) in prog.ops.iter().enumerate().take(MAX_OPS) {
-                        let before = alloc_count();
-                        match op {
-                            Op::New => gen = Gen::new(),
-                            Op::Update(k) => gen.update(&prog.pieces[*k]),
-                            Op::FinalizeAll => {
-                                for oi in 0..32 {
-                                    match gen.finalize_with_options(&mk_opts(Opts::from_index(oi))) {
-                                        Ok(h) => {
-                                            rep.finalize_ok += 1;
-                                            b = a.take();
-                                            a = Some(h);
-                                        }
-                                        Err(_) => rep.finalize_err += 1,
-                                    }
-                                }
-                            }
-                            Op::Finalize(oi) => match gen.finalize_with_options(&mk_opts(Opts::from_index(*oi as usize % 32))) {
-                                Ok(h) => {
-                                    rep.finalize_ok += 1;
-                                    b = a.take();
-                                    a = Some(h);
-                                }
-                                Err(_) => rep.finalize_err += 1,
-                            },
-                            Op::ProcessedLen => digest ^= gen.processed_len().unwrap_or(7) as u64,
-                            Op::CloneGen => gen = gen.clone(),
-                            Op::ParseStr(k, p) => match T::from_str_bytes(&prog.texts[*k], p.map(prefix)) {
-                                Ok(h) => {
-                                    rep.parse_ok += 1;
-                                    b = a.take();
-                                    a = Some(h);
-                                }
-                                Err(_) => rep.parse_err += 1,
-                            },
-                            Op::TryFromSlice(k) => match T::try_from(prog.bins[*k].as_slice()) {
-                                Ok(h) => {
-                                    rep.parse_ok += 1;
-                                    b = a.take();
-                                    a = Some(h);
-                                }
-                                Err(_) => rep.parse_err += 1,
-                            },
-                            Op::StoreBytes(l) => {
-                                if let Some(h) = &a {
-                                    match h.store_into_bytes(&mut buf[..(*l).min(512)]) {
-                                        Ok(n) => {
-                                            rep.store_ok += 1;
-                                            digest ^= buf[n / 2] as u64;
-                                        }
-                                        Err(_) => rep.store_err += 1,
-                                    }
-                                }
-                            }
-                            Op::StoreStr(p, l) => {
-                                if let Some(h) = &a {
-                                    match h.store_into_str_bytes(&mut buf[..(*l).min(512)], prefix(*p)) {
-                                        Ok(n) => {
-                                            rep.store_ok += 1;
-                                            digest ^= buf[n / 2] as u64;
-                                        }
-                                        Err(_) => rep.store_err += 1,
-                                    }
-                                }
-                            }
-                            Op::Compare(nl) => {
-                                if let (Some(x), Some(y)) = (&a, &b) {
-                                    digest = digest.wrapping_add(x.compare_with_config(y, config(*nl)) as u64);
-                                    rep.compares += 1;
-                                }
-                            }
-                            Op::ClearChecksum => {
-                                if let Some(h) = &mut a {
-                                    h.clear_checksum();
-                                }
-                            }
-                            Op::Accessors => {
-                                if let Some(h) = &a {
-                                    digest ^= h.checksum().data()[0] as u64;
-                                    digest ^= h.length().value() as u64;
-                                    digest ^= (h.qratios().q1ratio() ^ h.qratios().q2ratio() ^ h.qratios().value()) as u64;
-                                    digest ^= h.body().data()[0] as u64;
-                                    for q in 0..$buckets {
-                                        digest = digest.rotate_left(1) ^ h.body().quartile(q) as u64;
-                                    }
-                                    digest ^= h.checksum().is_valid() as u64 ^ h.length().is_valid() as u64;
-                                }
-                            }
-                            Op::MaxDistance => digest ^= T::max_distance(config(false)) as u64 ^ T::max_distance(config(true)) as u64,
-                            Op::ControlToString => {
-                                if let Some(h) = &a {
-                                    let s = h.to_string();
-                                    digest ^= s.len() as u64;
-                                }
-                            }
-                        }
-                        rep.allocs[i] = alloc_count() - before;
-                        rep.executed = i + 1;
-                    }
-                    rep.digest = digest;
-                }
-            }
-        }
-    };
-}
-
-variant!(v_short, tlsh::hashes::Short, vmodel::SHORT, 15, 12, 1, 48, distance_12_by, aggregate_48_by, tlsh_b_mapping_48);
-variant!(v_normal, tlsh::hashes::Normal, vmodel::NORMAL, 35, 32, 1, 128, distance_32_by, aggregate_128_by, tlsh_b_mapping_256);
-variant!(v_normal_lc, tlsh::hashes::NormalWithLongChecksum, vmodel::NORMAL_LC, 37, 32, 3, 128, distance_32_by, aggregate_128_by, tlsh_b_mapping_256);
-variant!(v_long, tlsh::hashes::Long, vmodel::LONG, 67, 64, 1, 256, distance_64_by, aggregate_256_by, tlsh_b_mapping_256);
-variant!(v_long_lc, tlsh::hashes::LongWithLongChecksum, vmodel::LONG_LC, 69, 64, 3, 256, distance_64_by, aggregate_256_by, tlsh_b_mapping_256);
-
-static V_SHORT: v_short::VApi = v_short::VApi;
-static V_NORMAL: v_normal::VApi = v_normal::VApi;
-static V_NORMAL_LC: v_normal_lc::VApi = v_normal_lc::VApi;
-static V_LONG: v_long::VApi = v_long::VApi;
-static V_LONG_LC: v_long_lc::VApi = v_long_lc::VApi;
-
-// ------------------------------------------------------------ global adapter
-
-struct Api;
-
-macro_rules! feats {
-    ($($f:literal),* $(,)?) => {{
-        let mut v: Vec<String> = Vec::new();
-        $(if cfg!(feature = $f) { v.push($f[2..].to_string()); })*
-        v
-    }};
-}
-
-macro_rules! tfeats {
-    ($($f:literal),* $(,)?) => {{
-        let mut v: Vec<String> = Vec::new();
-        $(if cfg!(target_feature = $f) { v.push($f.to_string()); })*
-        v
-    }};
-}
-
-impl GlobalApi for Api {
-    fn caps(&self) -> Caps {
-        let features = feats!(
-            "t-std", "t-alloc", "t-easy-functions", "t-opt-default", "t-opt-embedded-default", "t-simd", "t-simd-per-arch",
-            "t-detect-features", "t-unsafe", "t-strict-parser", "t-serde", "t-serde-buffered", "t-opt-simd-body-comparison",
-            "t-opt-simd-bucket-aggregation", "t-opt-simd-parse-hex", "t-opt-simd-convert-hex", "t-opt-dist-length-table",
-            "t-opt-dist-qratios-table", "t-opt-dist-qratios-table-double", "t-opt-pearson-table-double", "t-opt-low-memory-buckets",
-            "t-opt-low-memory-hex-str-decode-half-table", "t-opt-low-memory-hex-str-decode-quarter-table",
-            "t-opt-low-memory-hex-str-decode-min-table", "t-opt-low-memory-hex-str-encode-half-table",
-            "t-opt-low-memory-hex-str-encode-min-table",
-        );
-        Caps {
-            config: std::env::var("VERIF_CONFIG_NAME").unwrap_or_else(|_| "unnamed".into()),
-            features,
-            target_features: tfeats!("sse2", "ssse3", "sse4.1", "avx2"),
-            std: cfg!(feature = "t-std"),
-            easy: cfg!(feature = "t-easy-functions"),
-            serde: cfg!(feature = "t-serde"),
-            serde_buffered: cfg!(feature = "t-serde-buffered"),
-            strict: cfg!(feature = "t-strict-parser"),
-            unsafe_: cfg!(feature = "t-unsafe"),
-            hooks: cfg!(fast_tlsh_verif),
-            debug_assertions: cfg!(debug_assertions),
-            low_memory_buckets: cfg!(feature = "t-opt-low-memory-buckets"),
-        }
-    }
-    fn variants(&self) -> Vec<&dyn VariantApi> {
-        vec![&V_SHORT, &V_NORMAL, &V_NORMAL_LC, &V_LONG, &V_LONG_LC]
-    }
-    fn len_new(&self, n: u32) -> Option<u8> {
-        FuzzyHashLengthEncoding::new(n).map(|x| x.value())
-    }
-    fn len_try_from(&self, n: u32) -> Result<u8, PErr> {
-        FuzzyHashLengthEncoding::try_from(n).map(|x| x.value()).map_err(perr)
-    }
-    fn len_range(&self, code: u8) -> Option<(u32, u32)> {
-        // there is no public constructor from a raw code: parse it from a hash
-        let mut b = [0u8; 35];
-        b[1] = code;
-        let h = tlsh::hashes::Normal::try_from(&b).ok()?;
-        h.length().range().map(|r| (*r.start(), *r.end()))
-    }
-    fn len_is_valid(&self, code: u8) -> bool {
-        let mut b = [0u8; 35];
-        b[1] = code;
-        match tlsh::hashes::Normal::try_from(&b) {
-            Ok(h) => h.length().is_valid(),
-            // strict parser builds refuse invalid codes at construction
-            Err(_) => false,
-        }
-    }
-    fn len_compare(&self, a: u8, b: u8) -> u32 {
-        let mut x = [0u8; 35];
-        let mut y = [0u8; 35];
-        x[1] = a;
-        y[1] = b;
-        match (tlsh::hashes::Normal::try_from(&x), tlsh::hashes::Normal::try_from(&y)) {
-            (Ok(x), Ok(y)) => x.length().compare(y.length()),
-            _ => u32::MAX,
-        }
-    }
-    fn len_max_distance(&self) -> u32 {
-        FuzzyHashLengthEncoding::MAX_DISTANCE
-    }
-    fn q_max_distance(&self) -> u32 {
-        tlsh::hash::qratios::FuzzyHashQRatios::MAX_DISTANCE
-    }
-    fn len_sweep(&self, start: u32, out: &mut [u16]) {
-        for (i, o) in out.iter_mut().enumerate() {
-            let n = start.wrapping_add(i as u32);
-            let a = FuzzyHashLengthEncoding::new(n);
-            let t = FuzzyHashLengthEncoding::try_from(n);
-            let mut r: u16 = match a {
-                Some(x) => x.value() as u16,
-                None => 0x100,
-            };
-            match (&a, &t) {
-                (Some(x), Ok(y)) => {
-                    if x.value() != y.value() {
-                        r |= 0x200
-                    }
-                }
-                (None, Err(e)) => {
-                    if *e != ParseError::LengthIsTooLarge {
-                        r |= 0x400
-                    }
-                }
-                _ => r |= 0x200,
-            }
-            *o = r;
-        }
-    }
-    fn validity_is_err(&self, v: Validity) -> bool {
-        validity_back(v).is_err()
-    }
-    fn validity_is_err_on(&self, v: Validity, conservative: bool) -> bool {
-        validity_back(v).is_err_on(if conservative { DataLengthProcessingMode::Conservative } else { DataLengthProcessingMode::Optimistic })
-    }
-    fn compare_normal(&self, _l: &str, _r: &str) -> Option<Result<u32, (Side, PErr)>> {
-        #[cfg(feature = "t-easy-functions")]
-        return Some(tlsh::compare(_l, _r).map_err(side_err));
-        #[allow(unreachable_code)]
-        None
-    }
-    fn hash_buf_normal(&self, _d: &[u8]) -> Option<Result<H, GErr>> {
-        #[cfg(feature = "t-easy-functions")]
-        return Some(tlsh::hash_buf(_d).map(|h| Box::new(v_normal::HObj(h)) as H).map_err(gerr));
-        #[allow(unreachable_code)]
-        None
-    }
-    fn hash_stream_normal(&self, _r: &mut dyn Read) -> Option<Result<H, StreamErr>> {
-        #[cfg(all(feature = "t-easy-functions", feature = "t-std"))]
-        {
-            let mut r = _r;
-            return Some(tlsh::hash_stream(&mut r).map(|h| Box::new(v_normal::HObj(h)) as H).map_err(stream_err));
-        }
-        #[allow(unreachable_code)]
-        None
-    }
-    fn hash_file_normal(&self, _p: &Path) -> Option<Result<H, StreamErr>> {
-        #[cfg(all(feature = "t-easy-functions", feature = "t-std"))]
-        return Some(tlsh::hash_file(_p).map(|h| Box::new(v_normal::HObj(h)) as H).map_err(stream_err));
-        #[allow(unreachable_code)]
-        None
-    }
-    fn gerr_category(&self, e: GErr) -> GCat {
-        let g = match e {
-            GErr::TooLarge => GeneratorError::TooLargeInput,
-            GErr::TooSmall => GeneratorError::TooSmallInput,
-            GErr::HalfEmpty => GeneratorError::BucketsAreHalfEmpty,
-            GErr::ThreeQuarterEmpty => GeneratorError::BucketsAreThreeQuarterEmpty,
-            GErr::Unknown => return GCat::Unknown,
-        };
-        match g.category() {
-            tlsh::GeneratorErrorCategory::DataLength => GCat::DataLength,
-            tlsh::GeneratorErrorCategory::DataDistribution => GCat::DataDistribution,
-            _ => GCat::Unknown,
-        }
-    }
-    fn error_displays(&self) -> Vec<String> {
-        let mut v = vec![
-            ParseError::LengthIsTooLarge.to_string(),
-            ParseError::InvalidPrefix.to_string(),
-            ParseError::InvalidCharacter.to_string(),
-            ParseError::InvalidStringLength.to_string(),
-            ParseError::InvalidChecksum.to_string(),
-            OperationError::BufferIsTooSmall.to_string(),
-            GeneratorError::TooLargeInput.to_string(),
-            GeneratorError::TooSmallInput.to_string(),
-            GeneratorError::BucketsAreHalfEmpty.to_string(),
-            GeneratorError::BucketsAreThreeQuarterEmpty.to_string(),
-        ];
-        #[cfg(feature = "t-easy-functions")]
-        {
-            if let Err(e) = tlsh::compare("x", "y") {
-                v.push(e.to_string());
-            }
-        }
-        v
-    }
-    fn alloc_count(&self) -> u64 {
-        alloc_count()
-    }
-}
+//! The probe binary: see `lib.rs` (adapter) and `vcheck` (checks).
 
 fn main() {
-    let code = vcheck::probe_main(&Api);
+    let code = vcheck::probe_main(&probe::API);
     std::process::exit(code);
 }
